@@ -55,8 +55,12 @@ def gen_ops(rng, sz, n, writable=True, whences=(0, 0, 0, 1, 1, 2, 2, 3)):
             elif w == 2:
                 pos = max(0, sz + a)
         elif c == 7:
-            k = rng.randrange(3)
-            if k == 0:
+            k = rng.randrange(4)
+            if k == 3:
+                d = rng.choice([1, 2, 17])
+                ops.append(['s', d, 2])          # a few bytes beyond the end
+                pos = sz + d
+            elif k == 0:
                 ops.append(['s', pos, 1])        # relative seek by exactly the current position
                 pos = pos + pos
             elif k == 1:
@@ -64,8 +68,17 @@ def gen_ops(rng, sz, n, writable=True, whences=(0, 0, 0, 1, 1, 2, 2, 3)):
             else:
                 ops.append(['s', 0, 2] if pos == 0 else ['s', pos - sz, 2])
                 pos = sz if pos == 0 else pos
-            ops.append(['r', rng.choice([1, 5, 16, 17])])
-            pos += min(ops[-1][1], max(0, sz - pos))
+                if rng.random() < 0.4:
+                    d = rng.choice([1, 2, 17])
+                    ops.append(['s', d, 1])
+                    pos += d
+            if writable and rng.random() < 0.5:
+                # ... followed by a write: the position may now lie beyond the end (relative seeks are not clamped from above)
+                ops.append(['w', pyenv.rbytes(rng, rng.choice([1, 5, 16, 17, 40])).hex()])
+                pos += len(ops[-1][1]) // 2
+            else:
+                ops.append(['r', rng.choice([1, 5, 16, 17])])
+                pos += min(ops[-1][1], max(0, sz - pos))
         elif c < 10 and writable:
             k = rng.choice([0, 1, 2, 3, 5, 16, 17, max(0, sz - 1), sz, sz + 2])
             ops.append(['w', pyenv.rbytes(rng, min(k, 64)).hex()])
